@@ -18,6 +18,7 @@
 //   pcheck  SYS ENV <n> (<reals>)*n (<ctl>)*(n-1) (<dur>)*(n-1)     PathControl::check
 //   pinterp SYS ENV <n> …same…                                      PathControl::interpolate
 //   pgeom   SYS ENV <n> …same…                                      PathControl::asGeometric
+//   stepcount <h> <k>                                               duration fl(k*h) -> steps, through interpolate()/check()
 //   rrt  SYS ENV starts <n> (<reals>)*n goal <reals> <thr> k=<n> inter=<0|1> bias=<bits> seed=<n> iters=<n>
 //        -> two lines: the result, and the `rrtplay …` line (recorded draws) for the Lean driver
 //   sst  SYS ENV starts <n> (<reals>)*n GOAL sel=<bits> prune=<bits> bias=<bits> seed=<n> iters=<n>
@@ -798,6 +799,42 @@ static std::string opPath(const Toks &t, int mode)  // 0 check, 1 interpolate, 2
     return showPath(sys, p);
 }
 
+// `stepcount <h:bits> <k>`: the duration -> step-count conversion of PathControl, observed through the library itself:
+// a two-state path of the point system (zero control) with duration fl(k*h), interpolate(), count the controls
+// (max(1, steps)).  `trunc` is what a truncating conversion static_cast<int>(d/h) would give (computed here).
+static std::string opStepCount(const Toks &t)
+{
+    size_t i = 1;
+    double h = vp::needF(t, i);
+    unsigned k = vp::needN(t, i);
+    if (i != t.size() || !(h > 1e-9) || !(h < 1e6) || k > 100000)
+        throw vp::ParseError("stepcount");
+    Sys sys;
+    Toks st = {"point", vp::bits(0.0), vp::bits(0.0), vp::bits(10.0), vp::bits(10.0), vp::bits(-1.0), vp::bits(-1.0),
+               vp::bits(1.0), vp::bits(1.0), vp::bits(h), "1", "1000"};
+    size_t j = 0;
+    sys.parse(st, j);
+    std::shared_ptr<SysPropagator> prop;
+    auto si = makeSI(sys, prop);
+    si->setStateValidityChecker(std::make_shared<ScriptedValidity>(si, std::vector<int>()));
+    si->setup();
+    const double d = k * h;   // as the planners write it: unsigned * double
+    oc::PathControl p(si);
+    ob::State *s = si->allocState();
+    oc::Control *c = si->allocControl();
+    sys.space->copyFromReals(s, {1.0, 1.0});
+    c->as<oc::RealVectorControlSpace::ControlType>()->values[0] = 0.0;
+    c->as<oc::RealVectorControlSpace::ControlType>()->values[1] = 0.0;
+    p.append(s);
+    p.append(s, c, d);
+    si->freeState(s);
+    si->freeControl(c);
+    const bool chk = p.check();
+    p.interpolate();
+    return "steps=" + std::to_string(p.getControlCount()) + " check=" + (chk ? "1" : "0") + " d=" + vp::bits(d) + " trunc=" +
+           std::to_string(static_cast<int>(d / h));
+}
+
 // ------------------------------------------------------------------------------------------ planners
 struct Problem
 {
@@ -1077,7 +1114,9 @@ public:
 // `sst SYS ENV starts … GOAL sel=<bits> prune=<bits> bias=<bits> seed=<n> iters=<n>` -> the result line and the `sstplay …`
 // line for the Lean driver.  State samples, goal samples and controls are recorded by the wrappers; the step counts come
 // from the planner's own RNG (`rng_.uniformInt(min, max)`, not interceptable), so the planner's RNG is re-seeded with a known
-// local seed and a twin RNG replays its calls (uniform01 for the goal bias when the goal is sampleable, then uniformInt).
+// local seed; a twin RNG replays its calls (uniform01 for the goal bias when the goal is sampleable, then uniformInt) for the
+// `K` events, and the Lean driver recomputes both the goal-bias outcome and the step count from the bit-exact RNG model
+// (`lseed`, `bias` on the play line) and reports a desync if the recorded events differ.
 static std::string opSst(const Toks &t, std::string &playLine)
 {
     size_t i = 1;
@@ -1092,7 +1131,7 @@ static std::string opSst(const Toks &t, std::string &playLine)
         throw vp::ParseError("sst args");
     playLine = "sstplay";
     for (size_t j = 1; j < t.size(); ++j)
-        if (t[j].rfind("bias=", 0) != 0 && t[j].rfind("seed=", 0) != 0 && t[j].rfind("iters=", 0) != 0)
+        if (t[j].rfind("seed=", 0) != 0 && t[j].rfind("iters=", 0) != 0)
             playLine += " " + t[j];
     ompl::RNG::setSeed(seed + 1);
     Events ev;
@@ -1123,8 +1162,9 @@ static std::string opSst(const Toks &t, std::string &playLine)
     planner->setSelectionRadius(sel);
     planner->setPruningRadius(prune);
     planner->setup();
-    const std::uint_fast32_t lseed = (std::uint_fast32_t)(seed * 7919u + 12345u);
+    const std::uint_fast32_t lseed = (std::uint_fast32_t)((seed * 7919u + 12345u) % 4000000000u + 1u);
     planner->seedRng(lseed);
+    playLine += " lseed=" + std::to_string(lseed);
     ev.log.clear();
     auto cnt = std::make_shared<vp::EvalCounter>();
     cnt->fireAt = iters;
@@ -1471,6 +1511,8 @@ int main()
                 std::cout << opPath(t, 1) << "\n";
             else if (t[0] == "pgeom")
                 std::cout << opPath(t, 2) << "\n";
+            else if (t[0] == "stepcount")
+                std::cout << opStepCount(t) << "\n";
             else if ((t[0] == "rrt" || t[0] == "plan" || t[0] == "sst" || t[0] == "est" || t[0] == "kpiece") && planned)
                 std::cout << "bad-op\n";  // the global RNG seed can be set once per process
             else if (t[0] == "rrt")
